@@ -527,24 +527,34 @@ def _enc(ns_q, ns_t, owned=True):
     return hs
 
 
-def _lemma_p(ns_q, ns_t):
+P_FACET_DESC = {
+    "outcome": "accept / length mismatch / bad checksum with the documented precedence",
+    "ok_fields": "accepted texts decode to the address, type and data the independent parser reads",
+    "err_fields": "rejections report declared/actual counts resp. declared/computed checksum",
+    "err_data": "rejections carry the offending text",
+}
+
+
+def _lemma_p(ns_q, ns_t, facets=None):
     hs = []
     for n in ns_q + ns_t:
         for crlf in (False, True):
-            hs.append(
-                H(
-                    "gen_frames::p_%sn%d" % ("crlf_" if crlf else "", n),
-                    "Lemma P: every well-shaped text with %d data pairs%s (all hex digits of both cases symbolic, so declared length and checksum are arbitrary): real Frame::from_bytes vs the independent decoder - outcome, precedence, error fields, re-encoding" % (n, " + CRLF" if crlf else ""),
-                    tier="quick" if n in ns_q else "thorough",
-                    unwind=6,
-                    unwindset=fr_rules(n),
-                    params={"data_pairs": n, "crlf": crlf},
-                    timeout=3000,
-                    mem_gb=16,
-                    mem_expect=4,
-                    lemma="P",
+            for facet in facets or genframes.P_FACETS:
+                q = n in ns_q and (facet in ("outcome", "ok_fields") or n <= 1)
+                hs.append(
+                    H(
+                        "gen_frames::p_%s_%sn%d" % (facet, "crlf_" if crlf else "", n),
+                        "Lemma P (%s): every well-shaped text with %d data pairs%s - all hex digits of both cases symbolic, so declared length and checksum are arbitrary - real Frame::from_bytes vs the independent decoder: %s" % (facet, n, " + CRLF" if crlf else "", P_FACET_DESC[facet]),
+                        tier="quick" if q else "thorough",
+                        unwind=6,
+                        unwindset=fr_rules(n),
+                        params={"data_pairs": n, "crlf": crlf, "facet": facet},
+                        timeout=3000,
+                        mem_gb=16,
+                        mem_expect=4,
+                        lemma="P",
+                    )
                 )
-            )
     return hs
 
 
@@ -563,6 +573,27 @@ def _lemma_m(ls_q, ls_t):
     ]
 
 
+def _lemma_ref(letter, ns_q, ns_t, what):
+    hs = []
+    for n in ns_q + ns_t:
+        for crlf in (False, True):
+            hs.append(
+                H(
+                    "gen_frames::%s_%sn%d" % (letter, "crlf_" if crlf else "", n),
+                    "Lemma %s (reference encoder/decoder pair only, %d data bytes%s): %s" % (letter.upper(), n, " + CRLF" if crlf else "", what),
+                    tier="quick" if n in ns_q else "thorough",
+                    unwind=20 + 2 * n,
+                    params={"data_len": n, "crlf": crlf},
+                    timeout=3000,
+                    lemma=letter.upper(),
+                )
+            )
+    return hs
+
+
+LEMMA_D = "the reference encoding of ANY frame has the documented shape, its bytes sum to 0 mod 256, and the reference decoder returns the frame"
+LEMMA_E = "for EVERY accepted text, reference-encoding the decoded fields reproduces the text up to digit case and terminator"
+
 FRAME_ASSUME = COMMON_ASSUME + [
     "the regex crate cannot be executed symbolically (kani-compiler ICE): its pattern is translated per run into a matcher (vlib/regexgen.py); Lemma R proves that matcher equivalent to the documented shape incl. named group spans; the decoder harnesses then use that shape predicate with a concrete end offset (regex stand-in, contract mode)",
     "the translator is validated natively on every run against the real regex crate (same pattern string): match/no-match and all group spans on ~190k strings",
@@ -573,30 +604,33 @@ FRAME_STUBS = ["regex crate -> build/regex-shim (generated matcher + contract mo
 
 def _c01():
     hs = _lemma_r({"r_upto16", "r_upto32"}) + _enc(genframes.ENC_Q, genframes.ENC_T)
-    for n in genframes.RT_Q + genframes.RT_T:
+    # round trip = enc (real encoder == reference) + D (reference pair round-trips) + P2/P1 (real decoder == reference on
+    # well-shaped texts); a direct decode(encode(f)) query is kept for tiny frames as a cross-check (it costs 10+ GB beyond that)
+    hs += _lemma_ref("d", [0, 1, 2, 3, 15, 16, 17], [4, 8, 32, 64, 128, 255], LEMMA_D)
+    hs += _lemma_p([0, 1, 2, 3], [4, 8, 15, 16, 17, 32], facets=["outcome", "ok_fields"])
+    for n in [0, 1]:
         for nl in (False, True):
             hs.append(
                 H(
                     "gen_frames::rt_%sn%d" % ("nl_" if nl else "", n),
-                    "rt: frame with %d data bytes (address, type, data symbolic): Frame::from_bytes(to_bytes%s(f)) == f" % (n, "_with_newline" if nl else ""),
-                    tier="quick" if n in genframes.RT_Q else "thorough",
+                    "direct cross-check: frame with %d data bytes (address, type, data symbolic): Frame::from_bytes(to_bytes%s(f)) == f" % (n, "_with_newline" if nl else ""),
+                    tier="thorough",
                     unwind=6,
                     unwindset=fr_rules(n),
                     params={"data_len": n, "newline": nl},
                     timeout=3000,
-                    mem_gb=24 if n > 100 else 12,
-                    mem_expect=12 if n > 100 else 4,
+                    mem_gb=24,
+                    mem_expect=14,
                 )
             )
     hs.append(H("gen_frames::len_borrowed", "Data::try_new on a borrowed slice of EVERY length 0..=70000 (symbolic): accepted iff <= 255, error fields", unwind=3, params={"lengths": "0..=70000"}))
-    hs.append(H("gen_frames::len_any_usize", "Data::try_new on a slice descriptor of ANY length up to isize::MAX (never dereferenced): accepted iff <= 255", unwind=3, params={"lengths": "0..=isize::MAX"}))
     for l in [255, 256, 1000]:
         hs.append(H("gen_frames::len_owned%d" % l, "Data::try_new(Vec of %d bytes)" % l, unwind=3, params={"len": l}))
     return Prop(
         "C01",
         ["Frame::to_bytes", "Frame::to_bytes_with_newline", "Frame::payload", "frame::checksum", "Frame::from_bytes", "frame::parse_hex", "Data::try_new", "Frame::new", "the frame regex pattern (via generated matcher)"],
-        "data lengths quick {0,1,2,3,15,16,17} (encoder) / {0,1,2,3,16} (round trip), thorough up to 255 incl. 127/128/129/254/255; per length every address, type and data byte; Data::try_new for every length up to isize::MAX (borrowed) and 255/256/1000 (owned); Lemma R for all strings up to 32 bytes (quick) / 140 bytes and the lengths around 255 and 523 (thorough)",
-        "data lengths not listed (the code is uniform in the length: stated, not proven); strings longer than 527 bytes for the shape test",
+        "data lengths quick {0,1,2,3,15,16,17} (encoder) / {0,1,2,3,16} (round trip), thorough up to 255 incl. 127/128/129/254/255; per length every address, type and data byte; Data::try_new for every borrowed length 0..=70000 (symbolic) and owned 255/256/1000; Lemma R for all strings up to 32 bytes (quick) / 140 bytes and the lengths around 255 and 523 (thorough)",
+        "data lengths not listed (the code is uniform in the length: stated, not proven); data blocks longer than 70000 bytes for the length guard (a never-dereferenced slice descriptor of arbitrary length is rejected by Kani's pointer checks, so larger lengths are not encoded); strings longer than 527 bytes for the shape test",
         FRAME_STUBS,
         FRAME_ASSUME + ["oracle: refmodel::ref_encode (upper-case hex, big-endian address, LRC chosen so that all bytes sum to 0 mod 256)"],
         ["gen_frames::"],
@@ -607,7 +641,7 @@ def _c01():
 
 
 def _c03():
-    hs = _lemma_r({"r_upto16", "r_upto32", "r_upto64"}) + _lemma_p(genframes.P_Q, genframes.P_T) + _lemma_m(genframes.M_Q, genframes.M_T)
+    hs = _lemma_r({"r_upto16", "r_upto32", "r_upto64"}) + _lemma_p(genframes.P_Q, genframes.P_T) + _lemma_m(genframes.M_Q, genframes.M_T) + _lemma_ref("e", [0, 1, 2, 3], [4, 8, 16, 32], LEMMA_E) + _enc([0, 1, 2, 3], [4, 8, 16, 32], owned=False)
     return Prop(
         "C03",
         ["Frame::from_bytes", "frame::parse_hex", "frame::checksum", "Frame::payload", "Frame::to_bytes", "Data::try_new", "the frame regex pattern (via generated matcher)"],
@@ -623,7 +657,7 @@ def _c03():
 
 
 def _c02():
-    hs = _lemma_r({"r_upto16", "r_upto32"}) + _lemma_p(genframes.P_Q, [4, 8, 16]) + _enc([0, 1, 2, 3], [4, 8, 16], owned=False)
+    hs = _lemma_r({"r_upto16", "r_upto32"}) + _lemma_p(genframes.P_Q, [4, 8, 16], facets=["outcome", "ok_fields"]) + _enc([0, 1, 2, 3], [4, 8, 16], owned=False)
     for n in genframes.K_Q + genframes.K_T:
         for crlf in (False, True):
             hs.append(
